@@ -166,6 +166,9 @@ def coq_str(bs):
     return "[" + "; ".join(str(b) for b in bs) + "]"
 
 
+GEN_REL = "Gen/CNameTbl.v"
+
+
 def generate(src=None):
     """Text of coq/Gen/CNameTbl.v for the current sources."""
     p = parse_sources(src)
